@@ -16,6 +16,10 @@ def run(F, G, tier, seed):
     effects.run_lvshape(chk, F, G, parts=("symbols",))
     effects.run_visitors(chk, F, visitors=("UTAP::CollectChangesVisitor",))
     effects.run_reads(chk, F)
+    from ..callgraph import CallGraph
+    CG = CallGraph(F)
+    effects.run_prepass(chk, F, CG, fields=("changes", "depends"))
+    effects.run_ownlocals(chk, F, CG, fields=("changes", "depends"))
     chk.analysed["write_kinds"] = sorted(kinds)
     return chk.finish(
         "Decides the structural clauses of C11: every listed context is gated (dominance over the checker's "
